@@ -58,7 +58,10 @@ def nontrivial(trace):
 def run_programs(run, progs, batch=300, keep_pairs=False):
     """Execute programs on the real code and have Trace_Twin judge every step."""
     traces = []
-    for p in progs:
+    for i, p in enumerate(progs):
+        # every second program is also run unobserved (twin.execute_blind): looking at the labware must not matter
+        if i % 2 == 0 and "blind" not in p and not getattr(run, "is_replay", False):
+            p["blind"] = True
         tr = twin.execute(p)
         traces.append(tr)
         run.note_case(json.dumps({k: p[k] for k in ("dev", "unit", "wl", "lw", "ops")}, sort_keys=True, default=str), nontrivial(tr))
